@@ -166,3 +166,46 @@ Proof.
 Qed.
 
 End ClientFrame.
+
+(* C03_frame, Content-Length: exactly n bytes are the body, the rest is left *)
+Theorem parse_length tp v body rest :
+  task_clean tp -> Forall (fun h => no_colon (fst h)) (t_rh tp) ->
+  has_body tp = true -> te_fields tp = [] ->
+  cl_fields tp = [(lit "Content-Length", v)] -> all_digits v = true ->
+  lenN body = dec_value v ->
+  parse_one false (head_text tp ++ body ++ rest)
+  = Some (mkResponse (first_line tp) (map client_field (sort_hdrs (t_rh tp))) (FLength (dec_value v)) body, rest).
+Proof.
+  intros Hcl Hnc Hb Hte Hcf Hd Hlen. unfold parse_one.
+  destruct (client_head tp (body ++ rest) Hcl Hnc) as [-> ->].
+  unfold decide_framing. cbn [orb]. rewrite status_code_first_line, no_body_status_has_body, Hb. cbn [negb].
+  rewrite (sorted_filter_nil tp te_name Hte).
+  rewrite (sorted_filter_singleton tp cl_name _ Hcf).
+  cbn [snd forallb]. rewrite Hd. cbn [andb].
+  assert (Hlt : lenN (body ++ rest) <? dec_value v = false).
+  { rewrite <- Hlen. unfold lenN. rewrite app_length. apply N.ltb_ge. lia. }
+  rewrite Hlt. rewrite <- Hlen. unfold lenN. rewrite Nat2N.id.
+  rewrite firstn_app, firstn_all, Nat.sub_diag. cbn [firstn]. rewrite app_nil_r.
+  rewrite skipn_app, skipn_all, Nat.sub_diag. cbn [skipn List.app]. reflexivity.
+Qed.
+
+(* a value made of digits is not touched by OWS stripping *)
+Lemma lstrip_digits v : all_digits v = true -> lstrip_by is_sp_htab v = v.
+Proof.
+  unfold all_digits. destruct v as [|x v]; [discriminate|]. cbn [forallb lstrip_by]. intro H.
+  apply andb_true_iff in H as [Hx _]. unfold is_digit in Hx. unfold is_sp_htab.
+  destruct (x =? 32) eqn:E1; [apply N.eqb_eq in E1; subst; discriminate|].
+  destruct (x =? 9) eqn:E2; [apply N.eqb_eq in E2; subst; discriminate|]. reflexivity.
+Qed.
+
+Lemma strip_digits v : all_digits v = true -> strip_by is_sp_htab v = v.
+Proof.
+  intro H. unfold strip_by, rstrip_by. rewrite (lstrip_digits v H).
+  assert (Hr : all_digits (rev v) = true).
+  { unfold all_digits in *. destruct v as [|x v]; [discriminate|].
+    assert (Hf : forallb is_digit (rev (x :: v)) = true).
+    { rewrite forallb_forall in *. intros y Hy. apply H. apply in_rev. exact Hy. }
+    destruct (rev (x :: v)) eqn:E; [|exact Hf].
+    apply (f_equal (@length N)) in E. rewrite rev_length in E. discriminate. }
+  rewrite (lstrip_digits _ Hr). apply rev_involutive.
+Qed.
